@@ -184,13 +184,6 @@ func report(run *vlib.Run, e *enumeration, res []Result) {
 	}
 	sort.Strings(order)
 
-	type proposed struct {
-		Property  string `json:"property"`
-		Signature string `json:"signature"`
-		What      string `json:"what"`
-		Cases     int    `json:"cases,omitempty"`
-		Example   string `json:"example,omitempty"`
-	}
 	var prop []proposed
 	for _, sg := range order {
 		s := sigs[sg]
@@ -203,11 +196,10 @@ func report(run *vlib.Run, e *enumeration, res []Result) {
 				break
 			}
 		}
-		prop = append(prop, proposed{Property: "C18", Signature: s.Sig, What: what, Cases: s.Cases, Example: j.String()})
+		prop = append(prop, proposed{Property: "C18", Signature: s.Sig, What: what, Example: j.String(), cases: s.Cases})
 	}
 	if *proposeFlag != "" {
-		b, _ := json.MarshalIndent(prop, "", " ")
-		os.WriteFile(*proposeFlag, append(b, '\n'), 0o644)
+		writeProposal(*proposeFlag, run.Tier, prop)
 	}
 	if *dumpFlag != "" {
 		var out []map[string]any
@@ -251,7 +243,71 @@ func report(run *vlib.Run, e *enumeration, res []Result) {
 	run.Finish()
 }
 
+type proposed struct {
+	Property      string `json:"property"`
+	Signature     string `json:"signature"`
+	What          string `json:"what"`
+	CasesQuick    int    `json:"cases_quick"`
+	CasesThorough int    `json:"cases_thorough"`
+	Example       string `json:"example,omitempty"`
+	cases         int
+}
+
+// writeProposal merges the signatures of this run into the proposal file: the counts of the other tier are kept.
+func writeProposal(path, tier string, now []proposed) {
+	old := map[string]proposed{}
+	if b, err := os.ReadFile(path); err == nil {
+		var l []proposed
+		if json.Unmarshal(b, &l) == nil {
+			for _, p := range l {
+				old[p.Signature] = p
+			}
+		}
+	}
+	for k, p := range old {
+		if tier == "thorough" {
+			p.CasesThorough = 0
+		} else {
+			p.CasesQuick = 0
+		}
+		old[k] = p
+	}
+	for _, p := range now {
+		o, ok := old[p.Signature]
+		if !ok {
+			o = p
+		}
+		o.What = p.What
+		if o.Example == "" {
+			o.Example = p.Example
+		}
+		if tier == "thorough" {
+			o.CasesThorough = p.cases
+		} else {
+			o.CasesQuick = p.cases
+			o.Example = p.Example
+		}
+		old[p.Signature] = o
+	}
+	var keys []string
+	for k, p := range old {
+		if p.CasesQuick > 0 || p.CasesThorough > 0 {
+			keys = append(keys, k)
+		}
+	}
+	sort.Strings(keys)
+	out := make([]proposed, 0, len(keys))
+	for _, k := range keys {
+		out = append(out, old[k])
+	}
+	b, _ := json.MarshalIndent(out, "", " ")
+	os.WriteFile(path, append(b, '\n'), 0o644)
+}
+
 func describe(s *sigInfo) string {
+	if w, ok := whats[s.Sig]; ok {
+		return w
+	}
 	d := s.Diag
 	w := fmt.Sprintf("%s: %s (%s:%d `%s`)", d.Class, d.Msg, d.File, d.Line, d.Text)
 	if s.Cause != "" {
